@@ -19,4 +19,22 @@ KERNELS = [
                params=[("request_l1", Z), ("request_l2", Z), ("rk_l1", Z), ("rk_l2", Z), ("rk_l1_key", "K"), ("rk_l2_key", "K")],
                locals={"l1": Z, "l1_key": "K", "l2": Z, "l2_key": "K", "reseed_l2": B},
                attr_params={}, props=("C02", "C05", "C10")),
+
+    # ---- C20: DC discovery ------------------------------------------------------------------
+    K("k_srv_key", "_dns.py", "_get_highest_answer", ("lambda", 0),
+      [("a_priority", Z), ("a_weight", Z)], "(Z * Z)", props=("C20",)),
+    K("k_srv_name_domain", "_dns.py", "lookup_dc", ("assign", "record", 0),
+      [("domain_name", "list Z")], "list Z", props=("C20",)),
+    K("k_srv_name_bare", "_dns.py", "lookup_dc", ("assign", "record", 1),
+      [], "list Z", props=("C20",)),
+    K("k_srv_rstrip_chars", "_dns.py", "_get_highest_answer", ("callarg", "?.rstrip", 0, 0), [], "list Z", props=("C20",)),
+    K("k_srv_rdtype", "_dns.py", "lookup_dc", ("callarg", "dns.resolver.resolve", 0, 1), [], "list Z", props=("C20",)),
+    K("k_srv_search", "_dns.py", "lookup_dc", ("callarg", "dns.resolver.resolve", 0, "search"), [], B, props=("C20",)),
+    K("k_srv_name_test", "_dns.py", "lookup_dc", ("if", 0),
+      [("domain_name", "list Z")], B, props=("C20",)),
+]
+
+# sync/async twins compared as normalised ASTs (reported as a proof-side obligation of the named property)
+TWINS = [
+    ("C20", "_dns.py", "lookup_dc", "async_lookup_dc", {"asyncresolver": "resolver"}),
 ]
